@@ -250,51 +250,101 @@ static RunOut RunOne(const Engine& e, const Plan& plan, Tier tier, bool verbose,
     return out;
 }
 
+// Result lines child -> parent: fields separated by 0x1f, strings sanitised. (A hand-rolled format: with sub-millisecond
+// runs the parent parses >10k lines per second and a JSON parser made it the bottleneck.)
+static std::string San(const std::string& s)
+{
+    std::string o = s;
+    for (auto& c : o)
+        if (c == '\n' || c == '\t' || c == '\x1f' || c == '\r') c = ' ';
+    return o;
+}
 static std::string OutToLine(const RunOut& r)
 {
-    std::ostringstream o;
-    o << "R\t{\"i\":" << r.idx << ",\"seed\":\"" << r.seed << "\",\"v\":" << (r.violated ? 1 : 0) << ",\"cls\":" << JStr(r.cls)
-      << ",\"detail\":" << JStr(r.detail) << ",\"th\":\"" << r.trace_hash << "\",\"tl\":" << r.trace_len << ",\"nt\":" << (r.nontrivial ? 1 : 0)
-      << ",\"sim_ms\":" << r.sim_ms << ",\"sp\":" << r.sched_points << ",\"nops\":" << r.nops << ",\"fps\":[";
-    for (size_t i = 0; i < r.fps.size(); ++i) o << (i ? "," : "") << "\"" << r.fps[i] << "\"";
-    o << "],\"probes\":{";
-    bool f = true;
-    for (auto& [k, v] : r.probes) { o << (f ? "" : ",") << JStr(k) << ":" << v; f = false; }
-    o << "},\"faults\":{";
-    f = true;
-    for (auto& [k, v] : r.faults) { o << (f ? "" : ",") << JStr(k) << ":" << v; f = false; }
-    o << "}";
-    if (!r.sample.empty()) o << ",\"sample\":" << r.sample;
-    if (!r.log.empty()) {
-        o << ",\"log\":[";
-        for (size_t i = 0; i < r.log.size(); ++i) o << (i ? "," : "") << JStr(r.log[i]);
-        o << "]";
-    }
-    o << "}\n";
-    return o.str();
+    std::string o = "R\t";
+    const char S = '\x1f';
+    o += std::to_string(r.idx); o += S;
+    o += std::to_string(r.seed); o += S;
+    o += r.violated ? "1" : "0"; o += S;
+    o += std::to_string(r.trace_hash); o += S;
+    o += std::to_string(r.trace_len); o += S;
+    o += r.nontrivial ? "1" : "0"; o += S;
+    o += std::to_string(r.sim_ms); o += S;
+    o += std::to_string(r.sched_points); o += S;
+    o += std::to_string(r.nops); o += S;
+    for (size_t i = 0; i < r.fps.size(); ++i) { if (i) o += ','; o += std::to_string(r.fps[i]); }
+    o += S;
+    for (auto& [k, v] : r.probes) { o += San(k); o += '='; o += std::to_string(v); o += ','; }
+    o += S;
+    for (auto& [k, v] : r.faults) { o += San(k); o += '='; o += std::to_string(v); o += ','; }
+    o += S;
+    o += San(r.cls); o += S;
+    o += San(r.detail); o += S;
+    o += San(r.sample); o += S;
+    for (auto& l : r.log) { o += San(l); o += '\x1e'; }
+    o += '\n';
+    return o;
 }
 
-static bool LineToOut(const std::string& json, RunOut& r)
+static bool LineToOut(const std::string& line, RunOut& r)
 {
-    UniValue v;
-    if (!v.read(json) || !v.isObject()) return false;
-    r.idx = std::stol(v["i"].getValStr());
-    r.seed = std::stoull(v["seed"].get_str());
-    r.violated = v["v"].getInt<int>() != 0;
-    r.cls = v["cls"].get_str();
-    r.detail = v["detail"].get_str();
-    r.trace_hash = std::stoull(v["th"].get_str());
-    r.trace_len = std::stoull(v["tl"].getValStr());
-    r.nontrivial = v["nt"].getInt<int>() != 0;
-    r.sim_ms = std::stoull(v["sim_ms"].getValStr());
-    r.sched_points = std::stoull(v["sp"].getValStr());
-    r.nops = std::stoull(v["nops"].getValStr());
-    for (size_t i = 0; i < v["fps"].size(); ++i) r.fps.push_back(std::stoull(v["fps"][i].get_str()));
-    for (auto& k : v["probes"].getKeys()) r.probes[k] = std::stoull(v["probes"][k].getValStr());
-    for (auto& k : v["faults"].getKeys()) r.faults[k] = std::stoull(v["faults"][k].getValStr());
-    if (v.exists("sample")) r.sample = v["sample"].write();
-    if (v.exists("log"))
-        for (size_t i = 0; i < v["log"].size(); ++i) r.log.push_back(v["log"][i].get_str());
+    std::vector<std::string> f;
+    size_t start = 0;
+    for (;;) {
+        size_t p = line.find('\x1f', start);
+        if (p == std::string::npos) { f.push_back(line.substr(start)); break; }
+        f.push_back(line.substr(start, p - start));
+        start = p + 1;
+    }
+    if (f.size() < 16) return false;
+    try {
+        r.idx = std::stol(f[0]);
+        r.seed = std::stoull(f[1]);
+        r.violated = f[2] == "1";
+        r.trace_hash = std::stoull(f[3]);
+        r.trace_len = std::stoull(f[4]);
+        r.nontrivial = f[5] == "1";
+        r.sim_ms = std::stoull(f[6]);
+        r.sched_points = std::stoull(f[7]);
+        r.nops = std::stoull(f[8]);
+        auto kv = [](const std::string& s, std::map<std::string, uint64_t>& m) {
+            size_t st = 0;
+            while (st < s.size()) {
+                size_t c = s.find(',', st);
+                if (c == std::string::npos) c = s.size();
+                size_t e = s.find('=', st);
+                if (e != std::string::npos && e < c) m[s.substr(st, e - st)] = std::stoull(s.substr(e + 1, c - e - 1));
+                st = c + 1;
+            }
+        };
+        {
+            const std::string& s = f[9];
+            size_t st = 0;
+            while (st < s.size()) {
+                size_t c = s.find(',', st);
+                if (c == std::string::npos) c = s.size();
+                r.fps.push_back(std::stoull(s.substr(st, c - st)));
+                st = c + 1;
+            }
+        }
+        kv(f[10], r.probes);
+        kv(f[11], r.faults);
+        r.cls = f[12];
+        r.detail = f[13];
+        r.sample = f[14];
+        {
+            const std::string& s = f[15];
+            size_t st = 0;
+            while (st < s.size()) {
+                size_t c = s.find('\x1e', st);
+                if (c == std::string::npos) break;
+                r.log.push_back(s.substr(st, c - st));
+                st = c + 1;
+            }
+        }
+    } catch (const std::exception&) {
+        return false;
+    }
     r.ok = true;
     return true;
 }
@@ -495,6 +545,13 @@ struct Batch {
     bool budget_hit{false};
     size_t nviol{0};          //!< violating runs seen so far
     size_t stop_after_viol{12}; //!< stop dispatching new chunks once this many runs violated
+    // running totals (only when `aggregate` is set: the primary batch, not duplicates / single-plan runs)
+    bool aggregate{false};
+    std::set<uint64_t> fps_nt, traces;
+    std::map<std::string, uint64_t> probes, faults;
+    uint64_t sim_ms{0}, sched_points{0}, total_ops{0};
+    long nontrivial_runs{0};
+    std::vector<std::string> samples;
 
     /** Run all items (chunked) across `jobs` children. */
     void Run(std::vector<WorkItem> items)
@@ -599,6 +656,27 @@ struct Batch {
             RunOut r;
             if (LineToOut(line.substr(2), r) && r.idx >= 0 && (size_t)r.idx < results.size()) {
                 if (r.violated) ++nviol;
+                if (aggregate) {
+                    // fold into the running totals and keep only what later stages need (memory: millions of runs)
+                    traces.insert(r.trace_hash);
+                    if (r.nontrivial) {
+                        ++nontrivial_runs;
+                        for (auto f : r.fps) fps_nt.insert(f);
+                        if (r.fps.empty()) fps_nt.insert(r.trace_hash);
+                    }
+                    for (auto& [k, v] : r.probes) probes[k] += v;
+                    for (auto& [k, v] : r.faults) faults[k] += v;
+                    sim_ms += r.sim_ms;
+                    sched_points += r.sched_points;
+                    total_ops += r.nops;
+                    if (!r.sample.empty() && samples.size() < 3) samples.push_back(r.sample);
+                    r.fps.clear();
+                    r.fps.shrink_to_fit();
+                    r.probes.clear();
+                    r.faults.clear();
+                    r.sample.clear();
+                    if (!r.violated) { r.detail.clear(); r.log.clear(); }
+                }
                 results[r.idx] = std::move(r);
                 // advance done pointer
                 while (c.done < c.items.size() && results[c.items[c.done].idx].ok) ++c.done;
@@ -771,6 +849,7 @@ static int CmdRun(const std::string& prop, Tier tier, uint64_t base_seed, int jo
     std::vector<WorkItem> items;
     for (long i = 0; i < runs; ++i) items.push_back({i, RunSeed(base_seed, prop, i), nullptr, i < 3, false});
     Batch b{e, tier, jobs, budget, {}, 0, t0};
+    b.aggregate = true;
     b.results.resize(runs + ndup);
     b.Run(items);
     long completed = 0;
@@ -807,28 +886,17 @@ static int CmdRun(const std::string& prop, Tier tier, uint64_t base_seed, int jo
     }
 
     // aggregate
-    std::set<uint64_t> fps_nt, traces;
-    std::map<std::string, uint64_t> probes, faults;
-    uint64_t sim_ms = 0, sched_points = 0, total_ops = 0;
-    long nontrivial_runs = 0;
-    std::vector<std::string> samples;
+    std::set<uint64_t>& fps_nt = b.fps_nt;
+    std::set<uint64_t>& traces = b.traces;
+    std::map<std::string, uint64_t>& probes = b.probes;
+    std::map<std::string, uint64_t>& faults = b.faults;
+    uint64_t sim_ms = b.sim_ms, sched_points = b.sched_points, total_ops = b.total_ops;
+    long nontrivial_runs = b.nontrivial_runs;
+    std::vector<std::string>& samples = b.samples;
     std::vector<long> viol_idx;
     for (long i = 0; i < runs; ++i) {
         const RunOut& r = b.results[i];
-        if (!r.ok) continue;
-        traces.insert(r.trace_hash);
-        if (r.nontrivial) {
-            ++nontrivial_runs;
-            for (auto f : r.fps) fps_nt.insert(f);
-            if (r.fps.empty()) fps_nt.insert(r.trace_hash);
-        }
-        for (auto& [k, v] : r.probes) probes[k] += v;
-        for (auto& [k, v] : r.faults) faults[k] += v;
-        sim_ms += r.sim_ms;
-        sched_points += r.sched_points;
-        total_ops += r.nops;
-        if (!r.sample.empty() && samples.size() < 3) samples.push_back(r.sample);
-        if (r.violated) viol_idx.push_back(i);
+        if (r.ok && r.violated) viol_idx.push_back(i);
     }
 
     // violations: gate, minimise, replay; one report per distinct class (max 3)
